@@ -421,7 +421,7 @@ fn inferred_functions(thorough: bool) -> Vec<Case> {
     out
 }
 
-const STRS: [&str; 9] = ["plain", "two words", "q\\\"uote", "br\\{ace", "back\\\\slash", "uni°é✓", "", "trailing ", "it's"];
+const STRS: [&str; 9] = ["plain", "two words", "q\\\"uote", "br{{ace}}", "back\\\\slash", "uni°é✓", "", "trailing ", "it's"];
 
 fn decorated_definitions(thorough: bool) -> Vec<Case> {
     let mut out = vec![];
@@ -485,7 +485,7 @@ fn decorated_definitions(thorough: bool) -> Vec<Case> {
 
 fn strings(thorough: bool) -> Vec<Case> {
     let mut out = vec![];
-    let pieces = ["a", " ", "\\n", "\\t", "\\r", "\\\"", "\\\\", "\\{", "\\0", "}", "'", "°", "é✓", "{x2}", "{1 + 2}", "{2 m}", "{sv}", "{bt}", "{x2:>8}", "{x2:.3f}", "{x2:08.2f}", "{1 / 3:.3e}", "{sv:>6}", "{sv:^9}", "{if bt then 1 else 2}", "{[1, 2]}", "{pt}", "{pt.px}", "{sq(2)}", "{-x2}", "{x2 -> percent}", "{dt1}", "{x2:x}", "{2^10:#b}", "{\"in\"}", "{\"{x2}\"}"];
+    let pieces = ["a", " ", "\\n", "\\t", "\\r", "\\\"", "\\\\", "{{", "}}", "\\0", "'", "°", "é✓", "{x2}", "{1 + 2}", "{2 m}", "{sv}", "{bt}", "{x2:>8}", "{x2:.3f}", "{x2:08.2f}", "{1 / 3:.3e}", "{sv:>6}", "{sv:^9}", "{if bt then 1 else 2}", "{[1, 2]}", "{pt}", "{pt.px}", "{sq(2)}", "{-x2}", "{x2 -> percent}", "{dt1}", "{x2:x}", "{2^10:#b}", "{\"in\"}", "{\"{x2}\"}"];
     for a in pieces {
         out.push(c("string", format!("\"{a}\"")));
         for b in pieces {
